@@ -26,13 +26,15 @@ def sh(cmd, cwd=None, env=None, timeout=7200):
 def main():
     pid, n = sys.argv[1], sys.argv[2]
     checks = sys.argv[3:] or [pid]
-    src = f"/tmp/seed_{pid}/out/{n}"
-    dest = os.path.join(VERIF, "seeded", f"{pid}-{n}")
+    root = os.environ.get("SEED_ROOT", "/tmp/seed_")       # second round: SEED_ROOT=/tmp/seed2_ SEED_TAG=r2
+    tag = os.environ.get("SEED_TAG", "")
+    src = f"{root}{pid}/out/{n}"
+    dest = os.path.join(VERIF, "seeded", f"{pid}-{tag + '-' if tag else ''}{n}")
     os.makedirs(dest, exist_ok=True)
     for f in ("patch.diff", "demo.py", "notes.md"):
         if os.path.exists(os.path.join(src, f)):
             shutil.copy(os.path.join(src, f), dest)
-    clean, patched = f"/tmp/sv_{pid}_{n}_clean", f"/tmp/sv_{pid}_{n}_patched"
+    clean, patched = f"/tmp/sv_{pid}{tag}_{n}_clean", f"/tmp/sv_{pid}{tag}_{n}_patched"
     meta = {"property": pid, "n": int(n), "source": "independent sub-agent given only the property text and a scratch worktree",
             "ran": [], "checks": {}}
     try:
